@@ -63,17 +63,26 @@ var (
 
 // a file imported under any mix of spellings is retrieved once and contributes once
 //
-//verif:shard-quick 12 2
+//verif:shard-quick 16 3
 //verif:shard-thorough 16 3
 func Harness_C05_Spellings() {
-	s1 := nd.IntRange("root-first-spelling-of-x", 0, len(c05XFromRoot)-1)
-	s2 := nd.IntRange("root-second-spelling-of-x", 0, len(c05XFromRoot)-1)
-	s3 := nd.IntRange("y-spelling-of-x", 0, len(c05XFromY)-1)
-	back := nd.IntRange("y-imports-root-as", 0, len(c05AFromY)) // last: not at all
-	if !nd.Thorough() {
-		// quick: the second root import is relative or rooted only
-		nd.Assume(s2 <= 1)
-		nd.Assume(back != 2)
+	// how the root file itself is named on the command line
+	rootName := []string{"a.sysl", "./a.sysl", "/a.sysl", "a"}[nd.IntRange("root-given-as", 0, 3)]
+	var s1, s2, s3, back int
+	if nd.Thorough() {
+		s1 = nd.IntRange("root-first-spelling-of-x", 0, len(c05XFromRoot)-1)
+		s2 = nd.IntRange("root-second-spelling-of-x", 0, len(c05XFromRoot)-1)
+		s3 = nd.IntRange("y-spelling-of-x", 0, len(c05XFromY)-1)
+		back = nd.IntRange("y-imports-root-as", 0, len(c05AFromY)) // last: not at all
+	} else {
+		// quick: every spelling of x with the plain root name; the other root names with the
+		// plain spellings; the second root import relative or rooted only
+		if rootName == "a.sysl" {
+			s1 = nd.IntRange("root-first-spelling-of-x", 0, len(c05XFromRoot)-1)
+			s3 = nd.IntRange("y-spelling-of-x", 0, len(c05XFromY)-1)
+		}
+		s2 = nd.IntRange("root-second-spelling-of-x", 0, 1)
+		back = []int{0, 1, 3}[nd.IntRange("y-imports-root-as", 0, 2)]
 	}
 	root := "import " + c05XFromRoot[s1] + "\nimport lib/y\nimport " + c05XFromRoot[s2] + "\n" +
 		"A:\n  Ep:\n    X <- Ep\n"
@@ -90,7 +99,7 @@ func Harness_C05_Spellings() {
 	feSetup()
 	var err error
 	crashed, msg := nd.Recovered(func() {
-		mod, e := NewParser().Parse("a.sysl", r)
+		mod, e := NewParser().Parse(rootName, r)
 		err = e
 		if e != nil {
 			return
